@@ -185,7 +185,7 @@ def run(ck):
         ck.inconclusive(f"oracle transcriptions disagree: {bad[:2]}")
         return
     rng = ck.rng
-    nobj = ck.n(400, 20000)
+    nobj = ck.n(400, 8000)
     objs = [_gen_object(rng) for _ in range(nobj)]
     # make sure every (order, method, em) class is present
     for n in range(1, 5):
@@ -285,7 +285,8 @@ def run(ck):
                     dev = abs(row["got"][c] - row["want"][c])
                     ck.hit("expanded_bound")
                     ck.case(("exp",) + base + (lam, c, round(row["L"], 3)), nontrivial=True, sample=dict(kind="expanded", order=p["order"], nf=p["nf"], lam=lam, L=row["L"], dev=dev, allowed=bound, first_neglected_order=k))
-                    worst["exp"] = max(worst["exp"], dev / bound)
+                    if np.isfinite(dev) and dev <= bound + floor:
+                        worst["exp"] = max(worst["exp"], dev / bound)
                     if not np.isfinite(dev) or dev > bound + floor:
                         vkey = f"C15/expanded/{'a_s' if c == 0 else 'a_em'}/{ok_key}"
                         if c == 0 and p["order"][0] == 4 and k == 6:
@@ -368,4 +369,4 @@ def run(ck):
         ck.hit("oracle_crosscheck_mpmath")
         if max(abs(a1 - a2) / np.abs(a2)) > 1e-10:
             ck.inconclusive(f"scipy and mpmath oracles disagree: {a1} vs {a2}")
-    ck.note(worst_rel_exact=worst["exact"], worst_expanded_dev_over_bound=worst["exp"], tau_sensitive_cases=n_cross, oracle_crosschecks=nx)
+    ck.note(worst_rel_exact=worst["exact"], worst_held_expanded_dev_over_allowed=worst["exp"], tau_sensitive_cases=n_cross, oracle_crosschecks=nx)
